@@ -18,6 +18,7 @@ whoosh.support.levenshtein.damerau_levenshtein (= `distance`) implements the res
 (optimal string alignment, OSA). Where OSA and unrestricted Damerau-Levenshtein differ the oracle
 accepts anything between the two sets.
 """
+import random
 import itertools
 import shutil
 import tempfile
@@ -41,6 +42,9 @@ RULE = ("a case is one (lexicon index, query word): for it every maxdist 0..3 an
         "violation; population B (the rest, and block SP = TEXT(spelling=True) with a stemming analyzer) is judged through a second "
         "oracle that reproduces the listed mechanism exactly.")
 ASSUMPTIONS = [
+    "the empty string is a term of the lexicon when an ID field indexed an empty value: terms_within/suggest must treat it as "
+    "any other term, but FuzzyTerm (like every multi-term query) expands to non-empty terms only, so documents whose only "
+    "qualifying term is the empty string are accepted both as returned and as not returned",
     "documented distance = Damerau-Levenshtein; where the restricted (OSA, what whoosh.support.levenshtein.distance computes) and "
     "the unrestricted Damerau-Levenshtein distance differ (needs >= 3 letters, e.g. 'ca'/'abc') any result between the two sets is accepted, "
     "and suggestion order is then only checked between suggestions whose OSA and DL distances coincide",
@@ -91,7 +95,7 @@ FLOORS = {
               "fuzzy.evals": 16000, "fuzzy.nonempty": 9000, "suggest.evals": 20000, "suggest.nonempty": 12000, "correct.evals": 13000,
               "correct.replaced": 3000, "popA.tw.single.evals": 23000, "popA.tw.multi.evals": 22000, "popA.fuzzy.evals": 15000,
               "popA.suggest.evals": 12000, "suggest.order.pairs": 13000, "suggest.cut.evals": 2500, "alphabet.multibyte.cases": 50,
-              "alphabet.abc.cases": 45, "alphabet.edge.cases": 25, "reach.transposition-sensitive": 1200, "reach.osa!=dl": 200,
+              "alphabet.abc.cases": 45, "alphabet.edge.cases": 25, "alphabet.surrogate-edge.cases": 12, "reach.empty_term_in_lexicon": 5, "reach.transposition-sensitive": 1200, "reach.osa!=dl": 200,
               "reach.prefix>len": 12000, "layout.multi.built": 250},
     "thorough": {"e1.units": e1_units("thorough"), "e2.units": e2_units("thorough"), "e1.pairs": 62 * 63 * 16 * 4, "e2.subsets": 16383,
                  "sampled.cases": 2300, "spelling.cases": 300, "spelling.tw.evals": 20000, "spelling.fuzzy.evals": 20000,
@@ -219,7 +223,9 @@ class Built(object):
     def open(self):
         from whoosh import fields, analysis
         from whoosh.filedb.filestore import RamStorage, FileStorage
-        if self.fieldkind == "keyword":
+        if self.fieldkind == "id":
+            f = fields.ID()         # one term per document: the whole value (possibly the empty string)
+        elif self.fieldkind == "keyword":
             f = fields.KEYWORD(stored=False)
         elif self.fieldkind == "text":
             f = fields.TEXT(analyzer=analysis.SpaceSeparatedTokenizer(), phrase=False)
@@ -388,7 +394,9 @@ def check_fuzzy(ctx, b, w, d, p, constantscore=True):
         ctx.count("popA.fuzzy.evals")
     if not ok:
         return
-    lo, hi = b.docs_with(s_osa), b.docs_with(s_dl)
+    # the empty string can be a term (ID field with an empty value); multi-term queries expand to non-empty terms only
+    # (`if word` in MultiTerm.matcher, by design): documents whose only qualifying term is "" may or may not be returned
+    lo, hi = b.docs_with(set(s_osa) - {""}), b.docs_with(s_dl)
     if len(got) != len(set(got)):
         ctx.fail("fuzzy.docs", "document-returned-twice", dict(wit, observed=got[:40]))
         return
@@ -398,7 +406,7 @@ def check_fuzzy(ctx, b, w, d, p, constantscore=True):
         return
     wit.update(expected_docs=lo[:60], observed_docs=got[:60], expected_terms=_small(s_osa, 40),
                plain_levenshtein_terms=_small(s_lev, 40))
-    if got == b.docs_with(s_lev):
+    if got in (b.docs_with(s_lev), b.docs_with(set(s_lev) - {""})):
         # FuzzyTerm expands per segment through the automaton => plain Levenshtein in every layout
         wit["observed_by"] = "fuzzy.docs"
         ctx.fail("transposition", "known:automaton-no-transposition", wit,
@@ -685,6 +693,7 @@ ALPHABETS = {
     "ab-long": "ab",
     "wide": "abcdefghé日",
     "edge": "a\x00\uffff\U0010ffff",       # lowest and highest code points (the automaton walk appends U+0000 / takes chr(ord(c)+1))
+    "surrogate-edge": "a\ud7ff\ue000b",    # the code points around the surrogate range (chr(ord(c)+1) of U+D7FF is not encodable)
 }
 
 
@@ -705,8 +714,12 @@ def mutate(rng, w, alpha, n):
 
 
 def sampled_case(ctx, rng):
-    aname = rng.choice(["abc", "abc", "multibyte", "multibyte", "ab-long", "wide", "edge"])
+    aname = rng.choice(["abc", "abc", "multibyte", "multibyte", "ab-long", "wide", "edge", "surrogate-edge"])
     alpha = ALPHABETS[aname]
+    # an ID field indexes the whole value as one term - also the empty string, which is then a term of the lexicon
+    idrng = random.Random("c19-idfield:%r" % rng.random())
+    use_id = idrng.random() < 0.12
+    with_empty = use_id and idrng.random() < 0.6
     maxlen = 8 if aname == "ab-long" else 6
     bases = ["".join(rng.choice(alpha) for _ in range(rng.randint(2, maxlen))) for _ in range(rng.randint(1, 4))]
     lex = set(bases)
@@ -720,6 +733,9 @@ def sampled_case(ctx, rng):
             t = "".join(rng.choice(alpha) for _ in range(rng.randint(1, maxlen)))
         if t:
             lex.add(t)
+    if with_empty:
+        lex.add("")
+        ctx.count("reach.empty_term_in_lexicon")
     lex = sorted(lex)
     # documents: each holds 1..3 terms; term frequencies 1..4
     occ = []
@@ -729,10 +745,13 @@ def sampled_case(ctx, rng):
     docs = []
     i = 0
     while i < len(occ):
-        k = rng.choice([1, 1, 2, 3])
+        k = 1 if use_id else rng.choice([1, 1, 2, 3])
         docs.append(("d%d" % len(docs), occ[i:i + k]))
         i += k
     fieldkind = rng.choice(["keyword", "keyword", "text", "keyword-scorable"])
+    if use_id:
+        fieldkind = "id"
+        ctx.count("reach.id_field_cases")
     storage = "file" if rng.random() < 0.12 else "ram"
     layouts = [1] + ([rng.choice([2, 3])] if len(docs) > 1 else [])
     if len(docs) > 3 and rng.random() < 0.3:
